@@ -38,15 +38,16 @@ structure Inv (c : Cfg) (s : St) : Prop where
   /-- a process about to rename owns a complete temp file -/
   tmpR : ∀ p i, (s.procs p).status = .running → (s.procs p).pc = .rename i → s.files (.tmp p i) = some (full c i)
   /-- whatever a loader obtained is the bundled content of the version it asked for -/
-  got : ∀ p x, (s.procs p).got = some x → x = some (full c (ver (s.procs p).kind))
+  got : ∀ p ct, (s.procs p).got = some (some ct) → ct = full c (ver (s.procs p).kind)
   /-- a loader that has seen its file in a listing will find it -/
-  saw : ∀ p, (s.procs p).status = .running → (s.procs p).pc = .read →
+  saw : ∀ p v, (s.procs p).kind = .load v → (s.procs p).status = .running → (s.procs p).pc = .read →
       (s.files (.final (ver (s.procs p).kind))).isSome
-  /-- a finished loader has a result -/
-  fin : ∀ p v, (s.procs p).kind = .load v → (s.procs p).status = .finished → (s.procs p).got.isSome
-
-theorem startPc_cases (k : Kind) : startPc k = .list1 ∨ startPc k = .readTs := by
-  cases k <;> simp [startPc]
+  /-- only a loader lists the directory; only a loader or a direct reader reads a cache file -/
+  rdk : ∀ p, (s.procs p).status = .running →
+      ((s.procs p).pc = .list1 ∨ (s.procs p).pc = .list2 ∨ (s.procs p).pc = .read) →
+      (∃ v, (s.procs p).kind = .load v) ∨ ((s.procs p).pc = .read ∧ ∃ v, (s.procs p).kind = .peek v)
+  /-- a finished loader has read some content (never "not found") -/
+  fin : ∀ p v, (s.procs p).kind = .load v → (s.procs p).status = .finished → ∃ ct, (s.procs p).got = some (some ct)
 
 theorem init_procs (ps : List (Kind × Nat)) (p : Nat) :
     (init ps).procs p = idle ∨ ∃ k now, (init ps).procs p = start k now := by
@@ -61,30 +62,34 @@ theorem inv_init (c : Cfg) (ps : List (Kind × Nat)) : Inv c (init ps) := by
   · intro p h
     rcases init_procs ps p with h' | ⟨k, now, h'⟩ <;> rw [h'] at h
     · simp [idle, Proc.inRegion] at h
-    · rcases startPc_cases k with hk | hk <;> simp [start, Proc.inRegion, hk, Pc.locked] at h
+    · cases k <;> simp [start, startPc, Proc.inRegion, Pc.locked] at h
   · intro p i j h1 h2
     rcases init_procs ps p with h' | ⟨k, now, h'⟩ <;> rw [h'] at h1 h2
     · simp [idle] at h1
-    · rcases startPc_cases k with hk | hk <;> simp [start, hk] at h2
+    · cases k <;> simp [start, startPc] at h2
   · intro p i h1 h2
     rcases init_procs ps p with h' | ⟨k, now, h'⟩ <;> rw [h'] at h1 h2
     · simp [idle] at h1
-    · rcases startPc_cases k with hk | hk <;> simp [start, hk] at h2
-  · intro p x h
+    · cases k <;> simp [start, startPc] at h2
+  · intro p ct h
     rcases init_procs ps p with h' | ⟨k, now, h'⟩ <;> rw [h'] at h <;> simp [idle, start] at h
-  · intro p h1 h2
-    rcases init_procs ps p with h' | ⟨k, now, h'⟩ <;> rw [h'] at h1 h2
+  · intro p v hk h1 h2
+    rcases init_procs ps p with h' | ⟨k, now, h'⟩ <;> rw [h'] at hk h1 h2
     · simp [idle] at h1
-    · rcases startPc_cases k with hk | hk <;> simp [start, hk] at h2
+    · cases k <;> simp_all [start, startPc]
+  · intro p h1 h2
+    rcases init_procs ps p with h' | ⟨k, now, h'⟩ <;> rw [h'] at h1 h2 ⊢
+    · simp [idle] at h1
+    · cases k <;> simp_all [start, startPc]
   · intro p v h1 h2
     rcases init_procs ps p with h' | ⟨k, now, h'⟩ <;> rw [h'] at h1 h2 <;> simp [idle, start] at h1 h2
 
 theorem inv_crash (c : Cfg) (p : Nat) (s : St) (h : Inv c s) : Inv c (crash p s) := by
-  obtain ⟨h1, h2, h3, h4, h5, h6, h7⟩ := h
+  obtain ⟨h1, h2, h3, h4, h5, h6, h7, h8⟩ := h
   unfold crash
   split
   · constructor <;> (intro q; by_cases hq : q = p <;> simp_all [St.setP, upd, Proc.inRegion] <;> grind)
-  · exact ⟨h1, h2, h3, h4, h5, h6, h7⟩
+  · exact ⟨h1, h2, h3, h4, h5, h6, h7, h8⟩
 
 /-- frame rule: a step of `p` that only touches `p`'s record, `p`'s temp files, final names (keeping them
 complete) and never takes the lock away from another holder preserves the invariant if `p`'s new record
@@ -99,10 +104,13 @@ theorem inv_frame (c : Cfg) (p : Nat) (s s' : St) (pr' : Proc) (h : Inv c s)
     (hA : ∀ i j, pr'.status = .running → pr'.pc = .append i j →
       s'.files (.tmp p i) = some ⟨i, List.replicate j true⟩ ∧ j < c.chunks)
     (hR : ∀ i, pr'.status = .running → pr'.pc = .rename i → s'.files (.tmp p i) = some (full c i))
-    (hG : ∀ x, pr'.got = some x → x = some (full c (ver pr'.kind)))
-    (hS : pr'.status = .running → pr'.pc = .read → (s'.files (.final (ver pr'.kind))).isSome = true)
-    (hF : ∀ v, pr'.kind = .load v → pr'.status = .finished → pr'.got.isSome = true) : Inv c s' := by
-  obtain ⟨h1, h2, h3, h4, h5, h6, h7⟩ := h
+    (hG : ∀ ct, pr'.got = some (some ct) → ct = full c (ver pr'.kind))
+    (hS : ∀ v, pr'.kind = .load v → pr'.status = .running → pr'.pc = .read →
+      (s'.files (.final (ver pr'.kind))).isSome = true)
+    (hK : pr'.status = .running → (pr'.pc = .list1 ∨ pr'.pc = .list2 ∨ pr'.pc = .read) →
+      (∃ v, pr'.kind = .load v) ∨ (pr'.pc = .read ∧ ∃ v, pr'.kind = .peek v))
+    (hF : ∀ v, pr'.kind = .load v → pr'.status = .finished → ∃ ct, pr'.got = some (some ct)) : Inv c s' := by
+  obtain ⟨h1, h2, h3, h4, h5, h6, h8, h7⟩ := h
   constructor
   · exact htorn
   · intro q hq
@@ -121,10 +129,14 @@ theorem inv_frame (c : Cfg) (p : Nat) (s s' : St) (pr' : Proc) (h : Inv c s)
     by_cases e : q = p
     · subst e; simp [hp] at hg ⊢; exact hG x hg
     · simp [hp, e] at hg ⊢; exact h5 q x hg
+  · intro q v hk hs hpc
+    by_cases e : q = p
+    · subst e; simp [hp] at hk hs hpc ⊢; exact hS v hk hs hpc
+    · simp [hp, e] at hk hs hpc ⊢; exact hmono _ (h6 q v hk hs hpc)
   · intro q hs hpc
     by_cases e : q = p
-    · subst e; simp [hp] at hs hpc ⊢; exact hS hs hpc
-    · simp [hp, e] at hs hpc ⊢; exact hmono _ (h6 q hs hpc)
+    · subst e; simp [hp] at hs hpc ⊢; exact hK hs hpc
+    · simp [hp, e] at hs hpc ⊢; exact h8 q hs hpc
   · intro q v hk hs
     by_cases e : q = p
     · subst e; simp [hp] at hk hs ⊢; exact hF v hk hs
@@ -136,11 +148,15 @@ theorem inv_local (c : Cfg) (p : Nat) (s : St) (pr' : Proc) (h : Inv c s)
     (hA : ∀ i j, pr'.status = .running → pr'.pc = .append i j →
       s.files (.tmp p i) = some ⟨i, List.replicate j true⟩ ∧ j < c.chunks)
     (hR : ∀ i, pr'.status = .running → pr'.pc = .rename i → s.files (.tmp p i) = some (full c i))
-    (hG : ∀ x, pr'.got = some x → x = some (full c (ver pr'.kind)))
-    (hS : pr'.status = .running → pr'.pc = .read → (s.files (.final (ver pr'.kind))).isSome = true)
-    (hF : ∀ v, pr'.kind = .load v → pr'.status = .finished → pr'.got.isSome = true) : Inv c (s.setP p pr') :=
+    (hG : ∀ ct, pr'.got = some (some ct) → ct = full c (ver pr'.kind))
+    (hS : ∀ v, pr'.kind = .load v → pr'.status = .running → pr'.pc = .read →
+      (s.files (.final (ver pr'.kind))).isSome = true)
+    (hK : pr'.status = .running → (pr'.pc = .list1 ∨ pr'.pc = .list2 ∨ pr'.pc = .read) →
+      (∃ v, pr'.kind = .load v) ∨ (pr'.pc = .read ∧ ∃ v, pr'.kind = .peek v))
+    (hF : ∀ v, pr'.kind = .load v → pr'.status = .finished → ∃ ct, pr'.got = some (some ct)) :
+    Inv c (s.setP p pr') :=
   inv_frame c p s (s.setP p pr') pr' h rfl h.torn (fun _ _ _ => rfl) (fun _ hf => hf) (fun _ _ hq => hq)
-    hl hA hR hG hS hF
+    hl hA hR hG hS hK hF
 
 @[simp] theorem target_safe (k : Kind) (p i : Nat) : target .safe k p i = .tmp p i := by
   cases k <;> rfl
@@ -149,11 +165,32 @@ theorem inv_local (c : Cfg) (p : Nat) (s : St) (pr' : Proc) (h : Inv c s)
   cases k <;> rfl
 
 theorem loopPc_cases (c : Cfg) (k : Kind) (i : Nat) :
-    loopPc c k i = .pick i ∨ loopPc c k i = .writeTs ∨ loopPc c k i = .unlock := by
+    loopPc c k i = .pick i ∨ loopPc c k i = .truncTs ∨ loopPc c k i = .unlock := by
   unfold loopPc
   split
   · left; rfl
   · cases k <;> simp
+
+theorem loopPc_ne (c : Cfg) (k : Kind) (i : Nat) (pc : Pc)
+    (h1 : ∀ j, pc ≠ .pick j) (h2 : pc ≠ .truncTs) (h3 : pc ≠ .unlock) : loopPc c k i ≠ pc := by
+  rcases loopPc_cases c k i with e | e | e <;> rw [e] <;> first | exact (h1 _).symm | exact h2.symm | exact h3.symm
+
+@[simp] theorem loopPc_read (c : Cfg) (k : Kind) (i : Nat) : (loopPc c k i = .read) = False :=
+  eq_false (loopPc_ne c k i _ (by simp) (by simp) (by simp))
+@[simp] theorem loopPc_list1 (c : Cfg) (k : Kind) (i : Nat) : (loopPc c k i = .list1) = False :=
+  eq_false (loopPc_ne c k i _ (by simp) (by simp) (by simp))
+@[simp] theorem loopPc_list2 (c : Cfg) (k : Kind) (i : Nat) : (loopPc c k i = .list2) = False :=
+  eq_false (loopPc_ne c k i _ (by simp) (by simp) (by simp))
+@[simp] theorem loopPc_writeTs' (c : Cfg) (k : Kind) (i : Nat) : (loopPc c k i = .writeTs) = False :=
+  eq_false (loopPc_ne c k i _ (by simp) (by simp) (by simp))
+@[simp] theorem loopPc_append (c : Cfg) (k : Kind) (i a b : Nat) : (loopPc c k i = .append a b) = False :=
+  eq_false (loopPc_ne c k i _ (by simp) (by simp) (by simp))
+@[simp] theorem loopPc_rename (c : Cfg) (k : Kind) (i a : Nat) : (loopPc c k i = .rename a) = False :=
+  eq_false (loopPc_ne c k i _ (by simp) (by simp) (by simp))
+@[simp] theorem loopPc_create (c : Cfg) (k : Kind) (i a : Nat) : (loopPc c k i = .create a) = False :=
+  eq_false (loopPc_ne c k i _ (by simp) (by simp) (by simp))
+@[simp] theorem loopPc_mktemp (c : Cfg) (k : Kind) (i a : Nat) : (loopPc c k i = .mktemp a) = False :=
+  eq_false (loopPc_ne c k i _ (by simp) (by simp) (by simp))
 
 theorem leave_cases (pr : Proc) :
     (leave pr = { pr with pc := .list2 } ∧ ∃ v, pr.kind = .load v) ∨
@@ -162,8 +199,13 @@ theorem leave_cases (pr : Proc) :
   cases h : pr.kind <;> simp
 
 theorem inv_listed (c : Cfg) (p : Nat) (s : St) (h : Inv c s) (hr : (s.procs p).status = .running)
-    (hpc : (s.procs p).pc.locked = false) : Inv c (listed c .safe p s) := by
+    (hpc : (s.procs p).pc = .list1 ∨ (s.procs p).pc = .list2) : Inv c (listed c .safe p s) := by
   have hgot := h.got p
+  have hk : ∃ v, (s.procs p).kind = .load v := by
+    rcases h.rdk p hr (by rcases hpc with e | e <;> simp [e]) with e | ⟨e, _⟩
+    · exact e
+    · rcases hpc with e' | e' <;> simp [e'] at e
+  obtain ⟨v, hv⟩ := hk
   unfold listed
   simp only []
   split
@@ -174,11 +216,9 @@ theorem inv_listed (c : Cfg) (p : Nat) (s : St) (h : Inv c s) (hr : (s.procs p).
 theorem inv_leave (c : Cfg) (p : Nat) (s : St) (pr : Proc) (h : Inv c s)
     (hk : pr.kind = (s.procs p).kind) (hg : pr.got = (s.procs p).got) (hs : pr.status = .running) :
     Inv c (s.setP p (leave pr)) := by
-  rcases leave_cases pr with ⟨e, v, hv⟩ | ⟨e, hv⟩ <;> rw [e]
-  · apply inv_local c p s _ h <;> simp_all [Proc.inRegion, Pc.locked]
-    exact h.got p
-  · apply inv_local c p s _ h <;> simp_all [Proc.inRegion, Pc.locked]
-    exact h.got p
+  have hgot := h.got p
+  rcases leave_cases pr with ⟨e, v, hv⟩ | ⟨e, hv⟩ <;> rw [e] <;>
+    apply inv_local c p s _ h <;> simp_all [Proc.inRegion, Pc.locked] <;> first | assumption | grind
 
 theorem inv_stepPc (c : Cfg) (p : Nat) (s : St) (h : Inv c s) (hr : (s.procs p).status = .running) :
     Inv c (stepPc c .safe p s (s.procs p)) := by
@@ -187,30 +227,35 @@ theorem inv_stepPc (c : Cfg) (p : Nat) (s : St) (h : Inv c s) (hr : (s.procs p).
   split
   next hpc => -- list1
     split
-    · exact inv_listed c p s h hr (by simp [hpc, Pc.locked])
-    · apply inv_local c p s _ h <;> simp_all [Proc.inRegion, Pc.locked]
+    · exact inv_listed c p s h hr (Or.inl hpc)
+    · have hk := h.rdk p hr (Or.inl hpc)
+      apply inv_local c p s _ h <;> simp_all [Proc.inRegion, Pc.locked]
   next hpc => -- list2
-    exact inv_listed c p s h hr (by simp [hpc, Pc.locked])
+    exact inv_listed c p s h hr (Or.inr hpc)
   next hpc => -- read
-    have h6 := h.saw p hr hpc
+    have ht := h.torn
+    have h6 := h.saw p
+    have hk := h.rdk p hr (Or.inr (Or.inr hpc))
     apply inv_local c p s _ h <;> simp_all [Proc.inRegion, Pc.locked]
-    cases hf : s.files (Name.final (ver (s.procs p).kind)) with
-    | none => simp [hf] at h6
-    | some ct => rw [h.torn _ ct hf]
+    · intro ct hct; exact ht _ ct hct
+    · intro v hv
+      have := h6 v hv
+      exact Option.isSome_iff_exists.mp this
   next hpc => -- readTs
+    simp only []
     split
     · exact inv_leave c p s _ h rfl rfl hr
     · apply inv_local c p s _ h <;> simp_all [Proc.inRegion, Pc.locked]
   next hpc => -- openLock
     have ht := h.torn
-    refine inv_frame c p s _ _ h rfl ?_ ?_ ?_ ?_ ?_ ?_ ?_ ?_ ?_ ?_ <;>
+    refine inv_frame c p s _ _ h rfl ?_ ?_ ?_ ?_ ?_ ?_ ?_ ?_ ?_ ?_ ?_ <;>
       simp_all [St.setP, Proc.inRegion, Pc.locked] <;> assumption
   next k hpc => -- tryLock
     have ht := h.torn
     split
     next hh =>
       rcases loopPc_cases c (s.procs p).kind 0 with e | e | e <;>
-      refine inv_frame c p s _ _ h rfl ?_ ?_ ?_ ?_ ?_ ?_ ?_ ?_ ?_ ?_ <;>
+      refine inv_frame c p s _ _ h rfl ?_ ?_ ?_ ?_ ?_ ?_ ?_ ?_ ?_ ?_ ?_ <;>
         simp_all [St.setP, Proc.inRegion, Pc.locked] <;> assumption
     next q hh =>
       split
@@ -223,20 +268,20 @@ theorem inv_stepPc (c : Cfg) (p : Nat) (s : St) (h : Inv c s) (hr : (s.procs p).
   next i hpc => -- mktemp
     have hlk : s.holder = some p := h.lock p (by simp [Proc.inRegion, hr, hpc, Pc.locked])
     have ht := h.torn
-    refine inv_frame c p s _ _ h rfl ?_ ?_ ?_ ?_ ?_ ?_ ?_ ?_ ?_ ?_ <;>
+    refine inv_frame c p s _ _ h rfl ?_ ?_ ?_ ?_ ?_ ?_ ?_ ?_ ?_ ?_ ?_ <;>
       simp_all [St.setP, upd, Proc.inRegion, Pc.locked] <;> assumption
   next i hpc => -- create
     have hlk : s.holder = some p := h.lock p (by simp [Proc.inRegion, hr, hpc, Pc.locked])
     have ht := h.torn
     by_cases hc : c.chunks = 0 <;>
-    refine inv_frame c p s _ _ h rfl ?_ ?_ ?_ ?_ ?_ ?_ ?_ ?_ ?_ ?_ <;>
+    refine inv_frame c p s _ _ h rfl ?_ ?_ ?_ ?_ ?_ ?_ ?_ ?_ ?_ ?_ ?_ <;>
       simp_all [St.setP, upd, Proc.inRegion, Pc.locked, full] <;> first | assumption | omega
   next i j hpc => -- append
     have hlk : s.holder = some p := h.lock p (by simp [Proc.inRegion, hr, hpc, Pc.locked])
     have ht := h.torn
     obtain ⟨hA, hj⟩ := h.tmpA p i j hr hpc
     by_cases hc : j + 1 < c.chunks <;>
-    refine inv_frame c p s _ _ h rfl ?_ ?_ ?_ ?_ ?_ ?_ ?_ ?_ ?_ ?_ <;>
+    refine inv_frame c p s _ _ h rfl ?_ ?_ ?_ ?_ ?_ ?_ ?_ ?_ ?_ ?_ ?_ <;>
       simp_all [St.setP, upd, Proc.inRegion, Pc.locked, full, writeChunk_replicate] <;>
       first | assumption | omega | grind
   next i hpc => -- rename
@@ -245,19 +290,26 @@ theorem inv_stepPc (c : Cfg) (p : Nat) (s : St) (h : Inv c s) (hr : (s.procs p).
     have hR := h.tmpR p i hr hpc
     rw [hR]
     rcases loopPc_cases c (s.procs p).kind (i + 1) with e | e | e <;>
-    refine inv_frame c p s _ _ h rfl ?_ ?_ ?_ ?_ ?_ ?_ ?_ ?_ ?_ ?_ <;>
+    refine inv_frame c p s _ _ h rfl ?_ ?_ ?_ ?_ ?_ ?_ ?_ ?_ ?_ ?_ ?_ <;>
       simp_all [St.setP, upd, Proc.inRegion, Pc.locked] <;> first | assumption | grind
+  next hpc => -- truncTs
+    have hlk : s.holder = some p := h.lock p (by simp [Proc.inRegion, hr, hpc, Pc.locked])
+    have ht := h.torn
+    refine inv_frame c p s _ _ h rfl ?_ ?_ ?_ ?_ ?_ ?_ ?_ ?_ ?_ ?_ ?_ <;>
+      simp_all [St.setP, Proc.inRegion, Pc.locked] <;> assumption
   next hpc => -- writeTs
     have hlk : s.holder = some p := h.lock p (by simp [Proc.inRegion, hr, hpc, Pc.locked])
     have ht := h.torn
-    refine inv_frame c p s _ _ h rfl ?_ ?_ ?_ ?_ ?_ ?_ ?_ ?_ ?_ ?_ <;>
+    refine inv_frame c p s _ _ h rfl ?_ ?_ ?_ ?_ ?_ ?_ ?_ ?_ ?_ ?_ ?_ <;>
       simp_all [St.setP, Proc.inRegion, Pc.locked] <;> assumption
   next hpc => -- unlock
     have hlk : s.holder = some p := h.lock p (by simp [Proc.inRegion, hr, hpc, Pc.locked])
     have ht := h.torn
-    rcases leave_cases (s.procs p) with ⟨e, v, hv⟩ | ⟨e, hv⟩ <;> rw [e] <;>
-    refine inv_frame c p s _ _ h rfl ?_ ?_ ?_ ?_ ?_ ?_ ?_ ?_ ?_ ?_ <;>
-      simp_all [St.setP, Proc.inRegion, Pc.locked] <;> first | assumption | grind
+    rcases leave_cases (s.procs p) with ⟨e, v, hv⟩ | ⟨e, hv⟩ <;> rw [e]
+    · refine inv_frame c p s _ _ h rfl ?_ ?_ ?_ ?_ ?_ ?_ ?_ ?_ ?_ ?_ ?_ <;>
+        simp_all [St.setP, Proc.inRegion, Pc.locked] <;> first | assumption | grind
+    · refine inv_frame c p s _ _ h rfl ?_ ?_ ?_ ?_ ?_ ?_ ?_ ?_ ?_ ?_ ?_ <;>
+        simp [St.setP, Proc.inRegion, Pc.locked, hlk] <;> first | assumption | grind
 
 theorem inv_act (c : Cfg) (a : Action) (s : St) (h : Inv c s) : Inv c (act c .safe a s) := by
   cases a with
@@ -294,10 +346,8 @@ theorem load_ok (c : Cfg) (ps : List (Kind × Nat)) (sched : List Action) (p v :
     (hf : ((runSt c .safe sched (init ps)).procs p).status = .finished) :
     ((runSt c .safe sched (init ps)).procs p).got = some (some (full c v)) := by
   have hi := reach_inv c ps sched
-  have h7 := hi.fin p v hk hf
-  cases hg : ((runSt c .safe sched (init ps)).procs p).got with
-  | none => simp [hg] at h7
-  | some x => rw [hi.got p x hg, hk]; rfl
+  obtain ⟨ct, hg⟩ := hi.fin p v hk hf
+  rw [hg, hi.got p ct hg, hk]; rfl
 
 /-- **mutex**: no reachable state has two processes inside the locked region. -/
 theorem mutex (c : Cfg) (ps : List (Kind × Nat)) (sched : List Action) (p q : Nat) (hne : p ≠ q) :
@@ -322,22 +372,28 @@ theorem mutex_overlapUpTo (c : Cfg) (ps : List (Kind × Nat)) (sched : List Acti
 
 /-! ### second invariant: the timestamp and the "directory is empty" flag -/
 
+/-- the timestamp file holds a number or is in the middle of being rewritten (or was left truncated) -/
+def tsOk (s : St) : Prop := s.ts.isSome = true ∨ s.tsTorn = true
+
 structure Inv2 (s : St) : Prop where
   /-- `dirty = false` means `os.listdir` is empty -/
-  dirty : s.dirty = false → (∀ n, s.files n = none) ∧ s.lockFile = false ∧ s.ts = none
+  dirty : s.dirty = false → (∀ n, s.files n = none) ∧ s.lockFile = false ∧ s.ts = none ∧ s.tsTorn = false
   /-- only a refresh writes the timestamp -/
-  wts : ∀ p, (s.procs p).status = .running → (s.procs p).pc = .writeTs → ∃ m, (s.procs p).kind = .refresh m
+  wts : ∀ p, (s.procs p).status = .running → ((s.procs p).pc = .truncTs ∨ (s.procs p).pc = .writeTs) →
+    ∃ m, (s.procs p).kind = .refresh m
   /-- the timestamp is the clock of some refresh process -/
   tsFrom : ∀ t, s.ts = some t → ∃ q m, (s.procs q).kind = .refresh m ∧ (s.procs q).now = t
-  /-- a refresh that got to the end of its locked region has written the timestamp -/
+  /-- after a refresh got to the end of its locked region the timestamp file has been (re)written, unless
+  somebody is rewriting it right now or died doing so -/
   tsDone : ∀ p m, (s.procs p).kind = .refresh m →
     ((s.procs p).status = .running ∧ (s.procs p).pc = .unlock) ∨
-      ((s.procs p).status = .finished ∧ (s.procs p).err = none) → s.ts.isSome = true
-  /-- only a loader lists the directory and reads a cache file -/
+      ((s.procs p).status = .finished ∧ (s.procs p).err = none) → tsOk s
+  /-- only a loader lists the directory and only a loader or a direct reader reads a cache file -/
   ldk : ∀ p, (s.procs p).status = .running →
-    ((s.procs p).pc = .list1 ∨ (s.procs p).pc = .list2 ∨ (s.procs p).pc = .read) → ∃ v, (s.procs p).kind = .load v
+    ((s.procs p).pc = .list1 ∨ (s.procs p).pc = .list2 ∨ (s.procs p).pc = .read) →
+    (∃ v, (s.procs p).kind = .load v) ∨ (∃ v, (s.procs p).kind = .peek v)
 
-theorem loopPc_writeTs (c : Cfg) (k : Kind) (i : Nat) (h : loopPc c k i = .writeTs) : ∃ m, k = .refresh m := by
+theorem loopPc_truncTs (c : Cfg) (k : Kind) (i : Nat) (h : loopPc c k i = .truncTs) : ∃ m, k = .refresh m := by
   unfold loopPc at h
   split at h
   · simp at h
@@ -349,39 +405,44 @@ theorem loopPc_unlock (c : Cfg) (k : Kind) (i m : Nat) (h : loopPc c k i = .unlo
   · simp at h
   · cases k <;> simp_all
 
+@[simp] theorem loopPc_refresh_unlock (c : Cfg) (m i : Nat) : (loopPc c (.refresh m) i = .unlock) = False := by
+  simp only [eq_iff_iff, iff_false]
+  intro h
+  exact loopPc_unlock c _ i m h rfl
+
 theorem inv2_frame (p : Nat) (s s' : St) (pr' : Proc) (h : Inv2 s)
     (hp : s'.procs = upd s.procs p pr')
     (hk : pr'.kind = (s.procs p).kind) (hn : pr'.now = (s.procs p).now)
-    (hd : s'.dirty = false → s.dirty = false ∧ s'.files = s.files ∧ s'.lockFile = s.lockFile ∧ s'.ts = s.ts)
-    (hts : s'.ts = s.ts ∨ (s'.ts = some (s.procs p).now ∧ ∃ m, (s.procs p).kind = .refresh m))
-    (hw : pr'.status = .running → pr'.pc = .writeTs → ∃ m, pr'.kind = .refresh m)
+    (hd : s'.dirty = false →
+      s.dirty = false ∧ s'.files = s.files ∧ s'.lockFile = s.lockFile ∧ s'.ts = s.ts ∧ s'.tsTorn = s.tsTorn)
+    (hts : ∀ t, s'.ts = some t → s.ts = some t ∨ (t = (s.procs p).now ∧ ∃ m, (s.procs p).kind = .refresh m))
+    (hmono : tsOk s → tsOk s')
+    (hw : pr'.status = .running → (pr'.pc = .truncTs ∨ pr'.pc = .writeTs) → ∃ m, pr'.kind = .refresh m)
     (hD : ∀ m, pr'.kind = .refresh m →
-      (pr'.status = .running ∧ pr'.pc = .unlock) ∨ (pr'.status = .finished ∧ pr'.err = none) →
-      s'.ts.isSome = true)
-    (hL : pr'.status = .running → (pr'.pc = .list1 ∨ pr'.pc = .list2 ∨ pr'.pc = .read) → ∃ v, pr'.kind = .load v) :
+      (pr'.status = .running ∧ pr'.pc = .unlock) ∨ (pr'.status = .finished ∧ pr'.err = none) → tsOk s')
+    (hL : pr'.status = .running → (pr'.pc = .list1 ∨ pr'.pc = .list2 ∨ pr'.pc = .read) →
+      (∃ v, pr'.kind = .load v) ∨ (∃ v, pr'.kind = .peek v)) :
     Inv2 s' := by
   obtain ⟨h1, h2, h3, h4, h5⟩ := h
-  have hmono : s.ts.isSome = true → s'.ts.isSome = true := by
-    intro h; rcases hts with e | ⟨e, _⟩ <;> simp_all
   constructor
   · intro hd'
-    obtain ⟨a, b, c', d⟩ := hd hd'
-    rw [b, c', d]; exact h1 a
+    obtain ⟨a, b, c', d, e⟩ := hd hd'
+    rw [b, c', d, e]; exact h1 a
   · intro q hs hpc
     by_cases e : q = p
     · subst e; simp [hp] at hs hpc ⊢; exact hw hs hpc
     · simp [hp, e] at hs hpc ⊢; exact h2 q hs hpc
   · intro t ht
-    have key : ∀ q m, (s.procs q).kind = .refresh m → (s'.procs q).kind = .refresh m ∧ (s'.procs q).now = (s.procs q).now := by
+    have key : ∀ q m, (s.procs q).kind = .refresh m →
+        (s'.procs q).kind = .refresh m ∧ (s'.procs q).now = (s.procs q).now := by
       intro q m hq
       by_cases e : q = p
       · subst e; simp [hp, hk, hn, hq]
       · simp [hp, e, hq]
-    rcases hts with e | ⟨e, m, hm⟩
-    · obtain ⟨q, m, hq, hq'⟩ := h3 t (e ▸ ht)
+    rcases hts t ht with e | ⟨e, m, hm⟩
+    · obtain ⟨q, m, hq, hq'⟩ := h3 t e
       exact ⟨q, m, (key q m hq).1, (key q m hq).2.trans hq'⟩
-    · rw [e] at ht
-      exact ⟨p, m, (key p m hm).1, (key p m hm).2.trans (Option.some.inj ht)⟩
+    · exact ⟨p, m, (key p m hm).1, (key p m hm).2.trans e.symm⟩
   · intro q m hq hc
     by_cases e : q = p
     · subst e; simp [hp] at hq hc; exact hD m hq hc
@@ -393,13 +454,14 @@ theorem inv2_frame (p : Nat) (s s' : St) (pr' : Proc) (h : Inv2 s)
 
 theorem inv2_local (p : Nat) (s : St) (pr' : Proc) (h : Inv2 s)
     (hk : pr'.kind = (s.procs p).kind) (hn : pr'.now = (s.procs p).now)
-    (hw : pr'.status = .running → pr'.pc = .writeTs → ∃ m, pr'.kind = .refresh m)
+    (hw : pr'.status = .running → (pr'.pc = .truncTs ∨ pr'.pc = .writeTs) → ∃ m, pr'.kind = .refresh m)
     (hD : ∀ m, pr'.kind = .refresh m →
-      (pr'.status = .running ∧ pr'.pc = .unlock) ∨ (pr'.status = .finished ∧ pr'.err = none) →
-      s.ts.isSome = true)
-    (hL : pr'.status = .running → (pr'.pc = .list1 ∨ pr'.pc = .list2 ∨ pr'.pc = .read) → ∃ v, pr'.kind = .load v) :
+      (pr'.status = .running ∧ pr'.pc = .unlock) ∨ (pr'.status = .finished ∧ pr'.err = none) → tsOk s)
+    (hL : pr'.status = .running → (pr'.pc = .list1 ∨ pr'.pc = .list2 ∨ pr'.pc = .read) →
+      (∃ v, pr'.kind = .load v) ∨ (∃ v, pr'.kind = .peek v)) :
     Inv2 (s.setP p pr') :=
-  inv2_frame p s (s.setP p pr') pr' h rfl hk hn (fun hd => ⟨hd, rfl, rfl, rfl⟩) (Or.inl rfl) hw hD hL
+  inv2_frame p s (s.setP p pr') pr' h rfl hk hn (fun hd => ⟨hd, rfl, rfl, rfl, rfl⟩) (fun _ h => Or.inl h)
+    (fun h => h) hw hD hL
 
 theorem inv2_init (ps : List (Kind × Nat)) : Inv2 (init ps) := by
   constructor
@@ -407,12 +469,12 @@ theorem inv2_init (ps : List (Kind × Nat)) : Inv2 (init ps) := by
   · intro p h1 h2
     rcases init_procs ps p with h' | ⟨k, now, h'⟩ <;> rw [h'] at h1 h2
     · simp [idle] at h1
-    · rcases startPc_cases k with hk | hk <;> simp [start, hk] at h2
+    · cases k <;> simp [start, startPc] at h2
   · intro t h; simp [init] at h
   · intro p m hk hc
     rcases init_procs ps p with h' | ⟨k, now, h'⟩ <;> rw [h'] at hk hc
     · simp [idle] at hk
-    · rcases startPc_cases k with hk' | hk' <;> simp [start, hk'] at hc
+    · cases k <;> simp [start, startPc] at hk hc
   · intro p h1 h2
     rcases init_procs ps p with h' | ⟨k, now, h'⟩ <;> rw [h'] at h1 h2 ⊢
     · simp [idle] at h1
@@ -422,29 +484,25 @@ theorem inv2_crash (p : Nat) (s : St) (h : Inv2 s) : Inv2 (crash p s) := by
   unfold crash
   split
   · next hr =>
-    refine inv2_frame p s _ _ h rfl rfl rfl ?_ (Or.inl rfl) ?_ ?_ ?_ <;> simp_all [St.setP]
+    refine inv2_frame p s _ _ h rfl rfl rfl ?_ (fun _ h => Or.inl h) (fun h => h) ?_ ?_ ?_ <;> simp_all [St.setP]
   · exact h
 
 theorem inv2_listed (c : Cfg) (p : Nat) (s : St) (h : Inv2 s) (hr : (s.procs p).status = .running)
     (hpc : (s.procs p).pc = .list1 ∨ (s.procs p).pc = .list2) : Inv2 (listed c .safe p s) := by
-  obtain ⟨v, hv⟩ := h.ldk p hr (by rcases hpc with e | e <;> simp [e])
+  have hk := h.ldk p hr (by rcases hpc with e | e <;> simp [e])
   unfold listed
   simp only []
   split
   · apply inv2_local p s _ h <;> simp_all
-  · apply inv2_local p s _ h <;> simp_all
-
-@[simp] theorem loopPc_refresh_unlock (c : Cfg) (m i : Nat) : (loopPc c (.refresh m) i = .unlock) = False := by
-  simp only [eq_iff_iff, iff_false]
-  intro h
-  exact loopPc_unlock c _ i m h rfl
+  · apply inv2_local p s _ h <;> simp_all <;> grind
 
 theorem inv2_leave (p : Nat) (s : St) (hd : Option Nat) (pr : Proc) (h : Inv2 s)
     (hk : pr.kind = (s.procs p).kind) (hn : pr.now = (s.procs p).now)
-    (he : ∀ m, pr.kind = .refresh m → pr.err = none → s.ts.isSome = true) :
+    (he : ∀ m, pr.kind = .refresh m → pr.err = none → tsOk s) :
     Inv2 (({ s with holder := hd } : St).setP p (leave pr)) := by
   rcases leave_cases pr with ⟨e, v, hv⟩ | ⟨e, hv⟩ <;> rw [e] <;>
-    refine inv2_frame p s _ _ h rfl hk hn ?_ (Or.inl rfl) ?_ ?_ ?_ <;> simp_all [St.setP] <;> grind
+    refine inv2_frame p s _ _ h rfl hk hn ?_ (fun _ h => Or.inl h) (fun h => h) ?_ ?_ ?_ <;>
+    simp_all [St.setP, tsOk] <;> grind
 
 theorem inv2_stepPc (c : Cfg) (p : Nat) (s : St) (h : Inv2 s) (hr : (s.procs p).status = .running) :
     Inv2 (stepPc c .safe p s (s.procs p)) := by
@@ -453,56 +511,61 @@ theorem inv2_stepPc (c : Cfg) (p : Nat) (s : St) (h : Inv2 s) (hr : (s.procs p).
   next hpc => -- list1
     split
     · exact inv2_listed c p s h hr (Or.inl hpc)
-    · obtain ⟨v, hv⟩ := h.ldk p hr (Or.inl hpc)
-      apply inv2_local p s _ h <;> simp_all
+    · have hk := h.ldk p hr (Or.inl hpc)
+      apply inv2_local p s _ h <;> simp_all <;> grind
   next hpc => -- list2
     exact inv2_listed c p s h hr (Or.inr hpc)
   next hpc => -- read
-    obtain ⟨v, hv⟩ := h.ldk p hr (Or.inr (Or.inr hpc))
-    apply inv2_local p s _ h <;> simp_all
+    have hk := h.ldk p hr (Or.inr (Or.inr hpc))
+    apply inv2_local p s _ h <;> simp_all <;> grind
   next hpc => -- readTs
+    simp only []
     split
     · exact inv2_leave p s s.holder { s.procs p with err := some .tooRecent } h rfl rfl (by simp)
     · apply inv2_local p s _ h <;> simp_all
   next hpc => -- openLock
-    refine inv2_frame p s _ _ h rfl rfl rfl ?_ (Or.inl rfl) ?_ ?_ ?_ <;> simp_all [St.setP]
+    refine inv2_frame p s _ _ h rfl rfl rfl ?_ (fun _ h => Or.inl h) (fun h => h) ?_ ?_ ?_ <;> simp_all [St.setP]
   next k hpc => -- tryLock
     split
-    · have e1 := loopPc_writeTs c (s.procs p).kind 0
-      have e2 := loopPc_unlock c (s.procs p).kind 0
+    · have e1 := loopPc_truncTs c (s.procs p).kind 0
       rcases loopPc_cases c (s.procs p).kind 0 with e | e | e <;>
-      refine inv2_frame p s _ _ h rfl rfl rfl ?_ (Or.inl rfl) ?_ ?_ ?_ <;> simp_all [St.setP]
+      refine inv2_frame p s _ _ h rfl rfl rfl ?_ (fun _ h => Or.inl h) (fun h => h) ?_ ?_ ?_ <;>
+        simp_all [St.setP]
     · split
       · exact inv2_leave p s s.holder { s.procs p with err := some .lockTimeout } h rfl rfl (by simp)
       · apply inv2_local p s _ h <;> simp_all
   next i hpc => -- pick
-    have e1 := loopPc_writeTs c (s.procs p).kind (i + 1)
+    have e1 := loopPc_truncTs c (s.procs p).kind (i + 1)
     rcases loopPc_cases c (s.procs p).kind (i + 1) with e | e | e <;>
       (split <;> split <;> apply inv2_local p s _ h <;> simp_all)
   next i hpc => -- mktemp
-    refine inv2_frame p s _ _ h rfl rfl rfl ?_ (Or.inl rfl) ?_ ?_ ?_ <;> simp_all [St.setP]
+    refine inv2_frame p s _ _ h rfl rfl rfl ?_ (fun _ h => Or.inl h) (fun h => h) ?_ ?_ ?_ <;> simp_all [St.setP]
   next i hpc => -- create
     by_cases hc : c.chunks = 0 <;>
-    refine inv2_frame p s _ _ h rfl rfl rfl ?_ (Or.inl rfl) ?_ ?_ ?_ <;> simp_all [St.setP]
+    refine inv2_frame p s _ _ h rfl rfl rfl ?_ (fun _ h => Or.inl h) (fun h => h) ?_ ?_ ?_ <;> simp_all [St.setP]
   next i j hpc => -- append
     have hdirt := h.dirty
     by_cases hc : j + 1 < c.chunks <;>
-    refine inv2_frame p s _ _ h rfl rfl rfl ?_ (Or.inl rfl) ?_ ?_ ?_ <;> simp_all [St.setP] <;>
+    refine inv2_frame p s _ _ h rfl rfl rfl ?_ (fun _ h => Or.inl h) (fun h => h) ?_ ?_ ?_ <;> simp_all [St.setP] <;>
     first
       | (intro hd; funext n; have := (hdirt hd).1; simp_all [upd]; done)
       | grind
   next i hpc => -- rename
     have hdirt := h.dirty
-    have e1 := loopPc_writeTs c (s.procs p).kind (i + 1)
+    have e1 := loopPc_truncTs c (s.procs p).kind (i + 1)
     split
     · next ct hct =>
       rcases loopPc_cases c (s.procs p).kind (i + 1) with e | e | e <;>
-      refine inv2_frame p s _ _ h rfl rfl rfl ?_ (Or.inl rfl) ?_ ?_ ?_ <;> simp_all [St.setP] <;>
-      (intro hd; have := (hdirt hd).1; simp_all)
+      refine inv2_frame p s _ _ h rfl rfl rfl ?_ (fun _ h => Or.inl h) (fun h => h) ?_ ?_ ?_ <;>
+      simp_all [St.setP] <;> (intro hd; have := (hdirt hd).1; simp_all)
     · rcases loopPc_cases c (s.procs p).kind (i + 1) with e | e | e <;>
       apply inv2_local p s _ h <;> simp_all
+  next hpc => -- truncTs
+    obtain ⟨m, hm⟩ := h.wts p hr (Or.inl hpc)
+    refine inv2_frame p s _ _ h rfl rfl rfl ?_ ?_ ?_ ?_ ?_ ?_ <;> simp_all [St.setP, tsOk]
   next hpc => -- writeTs
-    refine inv2_frame p s _ _ h rfl rfl rfl ?_ (Or.inr ⟨rfl, h.wts p hr hpc⟩) ?_ ?_ ?_ <;> simp_all [St.setP]
+    obtain ⟨m, hm⟩ := h.wts p hr (Or.inr hpc)
+    refine inv2_frame p s _ _ h rfl rfl rfl ?_ ?_ ?_ ?_ ?_ ?_ <;> simp_all [St.setP, tsOk]
   next hpc => -- unlock
     exact inv2_leave p s _ (s.procs p) h rfl rfl (fun m hk _ => h.tsDone p m hk (Or.inl ⟨hr, hpc⟩))
 
@@ -526,7 +589,8 @@ theorem reach_inv2 (c : Cfg) (ps : List (Kind × Nat)) (sched : List Action) :
 theorem dirty_sound (c : Cfg) (ps : List (Kind × Nat)) (sched : List Action)
     (h : (runSt c .safe sched (init ps)).dirty = false) :
     (∀ n, (runSt c .safe sched (init ps)).files n = none) ∧
-      (runSt c .safe sched (init ps)).lockFile = false ∧ (runSt c .safe sched (init ps)).ts = none :=
+      (runSt c .safe sched (init ps)).lockFile = false ∧ (runSt c .safe sched (init ps)).ts = none ∧
+      (runSt c .safe sched (init ps)).tsTorn = false :=
   (reach_inv2 c ps sched).dirty h
 
 /-- a finished or dead process makes no step -/
@@ -570,9 +634,208 @@ theorem refresh_skipped (c : Cfg) (p t : Nat) (s : St)
   · simp [step, hr, stepPc, hpc, hts, hnow]
   · simp [labelOf, hr, hpc]
 
+/-! ### third invariant: progress of a population (what "finished" leaves behind) -/
+
+/-- loop index of a control state inside the copy loop -/
+def idx : Pc → Option Nat
+  | .pick i | .mktemp i | .create i | .append i _ | .rename i => some i
+  | _ => none
+
+/-- control states after the copy loop, still inside the locked region -/
+def isTail : Pc → Bool
+  | .truncTs | .writeTs | .unlock => true
+  | _ => false
+
+/-- the cache names of files `0 … n-1` exist -/
+def present (s : St) (n : Nat) : Prop := ∀ f, f < n → (s.files (.final f)).isSome = true
+
+structure Inv3 (c : Cfg) (s : St) : Prop where
+  loop : ∀ p i, (s.procs p).status = .running → idx (s.procs p).pc = some i → present s i
+  tail : ∀ p, (s.procs p).status = .running → isTail (s.procs p).pc = true → present s (total c (s.procs p).kind)
+  done : ∀ p, (s.procs p).status = .finished → (s.procs p).err = none →
+    ((s.procs p).kind = .populate ∨ ∃ m, (s.procs p).kind = .refresh m) →
+    (s.procs p).pc = .unlock ∧ present s (total c (s.procs p).kind)
+
+theorem loopPc_spec (c : Cfg) (k : Kind) (j : Nat) :
+    (j < total c k ∧ loopPc c k j = .pick j) ∨
+    (total c k ≤ j ∧ isTail (loopPc c k j) = true ∧ idx (loopPc c k j) = none) := by
+  unfold loopPc
+  split
+  · left; exact ⟨by assumption, rfl⟩
+  · right; refine ⟨by omega, ?_⟩; cases k <;> simp [isTail, idx]
+
+theorem inv3_frame (c : Cfg) (p : Nat) (s s' : St) (pr' : Proc) (h : Inv3 c s)
+    (hp : s'.procs = upd s.procs p pr')
+    (hmono : ∀ f, (s.files (.final f)).isSome = true → (s'.files (.final f)).isSome = true)
+    (hL : ∀ i, pr'.status = .running → idx pr'.pc = some i → present s' i)
+    (hT : pr'.status = .running → isTail pr'.pc = true → present s' (total c pr'.kind))
+    (hD : pr'.status = .finished → pr'.err = none → (pr'.kind = .populate ∨ ∃ m, pr'.kind = .refresh m) →
+      pr'.pc = .unlock ∧ present s' (total c pr'.kind)) : Inv3 c s' := by
+  obtain ⟨h1, h2, h3⟩ := h
+  have hm : ∀ n, present s n → present s' n := fun n hn f hf => hmono f (hn f hf)
+  constructor
+  · intro q i hs hi
+    by_cases e : q = p
+    · subst e; simp [hp] at hs hi; exact hL i hs hi
+    · simp [hp, e] at hs hi; exact hm _ (h1 q i hs hi)
+  · intro q hs ht
+    by_cases e : q = p
+    · subst e; simp [hp] at hs ht ⊢; exact hT hs ht
+    · simp [hp, e] at hs ht ⊢; exact hm _ (h2 q hs ht)
+  · intro q hs he hk
+    by_cases e : q = p
+    · subst e; simp [hp] at hs he hk ⊢; exact hD hs he hk
+    · simp [hp, e] at hs he hk ⊢; exact ⟨(h3 q hs he hk).1, hm _ (h3 q hs he hk).2⟩
+
+theorem inv3_local (c : Cfg) (p : Nat) (s : St) (pr' : Proc) (h : Inv3 c s)
+    (hL : ∀ i, pr'.status = .running → idx pr'.pc = some i → present s i)
+    (hT : pr'.status = .running → isTail pr'.pc = true → present s (total c pr'.kind))
+    (hD : pr'.status = .finished → pr'.err = none → (pr'.kind = .populate ∨ ∃ m, pr'.kind = .refresh m) →
+      pr'.pc = .unlock ∧ present s (total c pr'.kind)) : Inv3 c (s.setP p pr') :=
+  inv3_frame c p s (s.setP p pr') pr' h rfl (fun _ hf => hf) hL hT hD
+
+theorem inv3_init (c : Cfg) (ps : List (Kind × Nat)) : Inv3 c (init ps) := by
+  constructor
+  · intro p i h1 h2
+    rcases init_procs ps p with h' | ⟨k, now, h'⟩ <;> rw [h'] at h1 h2
+    · simp [idle] at h1
+    · cases k <;> simp [start, startPc, idx] at h2
+  · intro p h1 h2
+    rcases init_procs ps p with h' | ⟨k, now, h'⟩ <;> rw [h'] at h1 h2
+    · simp [idle] at h1
+    · cases k <;> simp [start, startPc, isTail] at h2
+  · intro p h1
+    rcases init_procs ps p with h' | ⟨k, now, h'⟩ <;> rw [h'] at h1 <;> simp [idle, start] at h1
+
+theorem inv3_crash (c : Cfg) (p : Nat) (s : St) (h : Inv3 c s) : Inv3 c (crash p s) := by
+  unfold crash
+  split
+  · refine inv3_frame c p s _ _ h rfl (fun _ hf => hf) ?_ ?_ ?_ <;> simp [St.setP]
+  · exact h
+
+/-- a step of the copy loop that moves on to `loopPc … j` once files `0 … j-1` are there -/
+theorem inv3_next (c : Cfg) (p : Nat) (s s' : St) (pr : Proc) (j : Nat) (h : Inv3 c s)
+    (hs : pr.status = .running)
+    (hp : s'.procs = upd s.procs p { pr with pc := loopPc c pr.kind j })
+    (hmono : ∀ f, (s.files (.final f)).isSome = true → (s'.files (.final f)).isSome = true)
+    (hj : present s' j) : Inv3 c s' := by
+  rcases loopPc_spec c pr.kind j with ⟨hlt, e⟩ | ⟨hge, e1, e2⟩
+  · refine inv3_frame c p s s' _ h hp hmono ?_ ?_ ?_ <;> simp_all [idx, isTail]
+  · refine inv3_frame c p s s' _ h hp hmono ?_ ?_ ?_ <;> simp_all
+    intro f hf; exact hj f (by omega)
+
+theorem inv3_leave (c : Cfg) (p : Nat) (s : St) (hd : Option Nat) (pr : Proc) (h : Inv3 c s)
+    (he : pr.err = none → pr.pc = .unlock ∧ present s (total c pr.kind)) :
+    Inv3 c (({ s with holder := hd } : St).setP p (leave pr)) := by
+  rcases leave_cases pr with ⟨e, v, hv⟩ | ⟨e, hv⟩ <;> rw [e] <;>
+    refine inv3_frame c p s _ _ h rfl (fun _ hf => hf) ?_ ?_ ?_ <;> simp_all [St.setP, idx, isTail, present] <;> first | assumption | grind
+
+theorem inv3_stepPc (c : Cfg) (p : Nat) (s : St) (hI : Inv c s) (h : Inv3 c s)
+    (hr : (s.procs p).status = .running) : Inv3 c (stepPc c .safe p s (s.procs p)) := by
+  have hnot : ∀ v, (s.procs p).kind = .load v ∨ (s.procs p).kind = .peek v →
+      ¬ ((s.procs p).kind = .populate ∨ ∃ m, (s.procs p).kind = .refresh m) := by
+    intro v hv; rcases hv with e | e <;> simp [e]
+  unfold stepPc
+  split
+  next hpc => -- list1
+    have hk := hI.rdk p hr (Or.inl hpc)
+    unfold listed
+    simp only []
+    split
+    · split <;> apply inv3_local c p s _ h <;> simp_all [idx, isTail] <;> first | assumption | grind [present]
+    · apply inv3_local c p s _ h <;> simp_all [idx, isTail] <;> first | assumption | grind [present]
+  next hpc => -- list2
+    have hk := hI.rdk p hr (Or.inr (Or.inl hpc))
+    unfold listed
+    simp only []
+    split <;> apply inv3_local c p s _ h <;> simp_all [idx, isTail] <;> first | assumption | grind [present]
+  next hpc => -- read
+    have hk := hI.rdk p hr (Or.inr (Or.inr hpc))
+    apply inv3_local c p s _ h <;> simp_all [idx, isTail] <;> first | assumption | grind [present]
+  next hpc => -- readTs
+    simp only []
+    split
+    · exact inv3_leave c p s s.holder { s.procs p with err := some .tooRecent } h (by simp)
+    · apply inv3_local c p s _ h <;> simp_all [idx, isTail] <;> first | assumption | grind [present]
+  next hpc => -- openLock
+    refine inv3_frame c p s _ _ h rfl (fun _ hf => hf) ?_ ?_ ?_ <;> simp_all [St.setP, idx, isTail, present] <;> first | assumption | grind
+  next k hpc => -- tryLock
+    split
+    · exact inv3_next c p s _ (s.procs p) 0 h hr rfl (fun _ hf => hf) (fun f hf => absurd hf (by omega))
+    · split
+      · exact inv3_leave c p s s.holder { s.procs p with err := some .lockTimeout } h (by simp)
+      · apply inv3_local c p s _ h <;> simp_all [idx, isTail] <;> first | assumption | grind [present]
+  next i hpc => -- pick
+    have hi : present s i := h.loop p i hr (by simp [hpc, idx])
+    have hnext : ∀ (hf : (s.files (.final i)).isSome = true), present s (i + 1) := by
+      intro hf f hlt
+      by_cases e : f = i
+      · rw [e]; exact hf
+      · exact hi f (by omega)
+    split
+    · split
+      · next hfull => exact inv3_next c p s _ (s.procs p) (i + 1) h hr rfl (fun _ hf => hf) (hnext (by simp [hfull]))
+      · apply inv3_local c p s _ h <;> simp_all [idx, isTail] <;> first | assumption | grind [present]
+    · split
+      · next hsome => exact inv3_next c p s _ (s.procs p) (i + 1) h hr rfl (fun _ hf => hf) (hnext hsome)
+      · apply inv3_local c p s _ h <;> simp_all [idx, isTail] <;> first | assumption | grind [present]
+  next i hpc => -- mktemp
+    have hi : present s i := h.loop p i hr (by simp [hpc, idx])
+    refine inv3_frame c p s _ _ h rfl ?_ ?_ ?_ ?_ <;>
+      simp_all [St.setP, upd, idx, isTail, present]
+  next i hpc => -- create
+    have hi : present s i := h.loop p i hr (by simp [hpc, idx])
+    by_cases hc : c.chunks = 0 <;>
+    refine inv3_frame c p s _ _ h rfl ?_ ?_ ?_ ?_ <;>
+      simp_all [St.setP, upd, idx, isTail, present]
+  next i j hpc => -- append
+    have hi : present s i := h.loop p i hr (by simp [hpc, idx])
+    by_cases hc : j + 1 < c.chunks <;>
+    refine inv3_frame c p s _ _ h rfl ?_ ?_ ?_ ?_ <;>
+      simp_all [St.setP, upd, idx, isTail, present] <;> first | assumption | grind
+  next i hpc => -- rename
+    have hi : present s i := h.loop p i hr (by simp [hpc, idx])
+    split
+    · next ct hct =>
+      refine inv3_next c p s _ (s.procs p) (i + 1) h hr rfl ?_ ?_
+      · intro f hf; simp [upd]; split <;> simp_all
+      · intro f hf
+        by_cases e : f = i
+        · simp [upd, e]
+        · have := hi f (by omega); simp [upd, e]; exact this
+    · next hnone =>
+      have := hI.tmpR p i hr hpc
+      rw [hnone] at this; simp at this
+  next hpc => -- truncTs
+    have ht := h.tail p hr (by simp [hpc, isTail])
+    refine inv3_frame c p s _ _ h rfl (fun _ hf => hf) ?_ ?_ ?_ <;> simp_all [St.setP, idx, isTail, present]
+  next hpc => -- writeTs
+    have ht := h.tail p hr (by simp [hpc, isTail])
+    refine inv3_frame c p s _ _ h rfl (fun _ hf => hf) ?_ ?_ ?_ <;> simp_all [St.setP, idx, isTail, present]
+  next hpc => -- unlock
+    have ht := h.tail p hr (by simp [hpc, isTail])
+    exact inv3_leave c p s _ (s.procs p) h (fun _ => ⟨hpc, ht⟩)
+
+theorem reach_inv3 (c : Cfg) (ps : List (Kind × Nat)) (sched : List Action) :
+    Inv3 c (runSt c .safe sched (init ps)) := by
+  suffices ∀ s, Inv c s → Inv3 c s → Inv3 c (runSt c .safe sched s) from this _ (inv_init c ps) (inv3_init c ps)
+  induction sched with
+  | nil => intro s _ h; exact h
+  | cons a as ih =>
+    intro s hI h
+    refine ih _ (inv_act c a s hI) ?_
+    cases a with
+    | step p =>
+      simp only [act, step]
+      split
+      · next hr => exact inv3_stepPc c p s hI h hr
+      · exact h
+    | crash p => exact inv3_crash c p s h
+
 /-- **refresh_skipped**: in any reachable state in which some refresh has completed, a refresh `p` that
 starts now and whose clock is within the threshold of every refresher's clock is skipped: it ends at once
-with `tooRecent`, having made no file-system step other than reading the timestamp. -/
+with `tooRecent`, having made no file-system step other than reading the timestamp — provided nobody is in the
+middle of rewriting the timestamp file (or died there: a truncated timestamp reads as "never refreshed"). -/
 theorem refresh_skipped_after_completed (c : Cfg) (ps : List (Kind × Nat)) (sched : List Action)
     (p q m mp : Nat)
     (hq : ((runSt c .safe sched (init ps)).procs q).kind = .refresh m)
@@ -581,13 +844,17 @@ theorem refresh_skipped_after_completed (c : Cfg) (ps : List (Kind × Nat)) (sch
     (hp : ((runSt c .safe sched (init ps)).procs p).kind = .refresh mp)
     (hr : ((runSt c .safe sched (init ps)).procs p).status = .running)
     (hpc : ((runSt c .safe sched (init ps)).procs p).pc = .readTs)
+    (hnt : (runSt c .safe sched (init ps)).tsTorn = false)
     (hclock : ∀ q' m', ((runSt c .safe sched (init ps)).procs q').kind = .refresh m' →
       ((runSt c .safe sched (init ps)).procs p).now < ((runSt c .safe sched (init ps)).procs q').now + c.thr) :
     step c .safe p (runSt c .safe sched (init ps)) =
       (runSt c .safe sched (init ps)).setP p
         { (runSt c .safe sched (init ps)).procs p with err := some .tooRecent, status := .finished } := by
   have hi := reach_inv2 c ps sched
-  have hsome := hi.tsDone q m hq (Or.inr ⟨hqf, hqe⟩)
+  have hsome : (runSt c .safe sched (init ps)).ts.isSome = true := by
+    rcases hi.tsDone q m hq (Or.inr ⟨hqf, hqe⟩) with e | e
+    · exact e
+    · rw [hnt] at e; cases e
   cases hts : (runSt c .safe sched (init ps)).ts with
   | none => simp [hts] at hsome
   | some t =>
@@ -596,6 +863,50 @@ theorem refresh_skipped_after_completed (c : Cfg) (ps : List (Kind × Nat)) (sch
     rw [hn'] at hnow
     rw [(refresh_skipped c p t _ hr hpc hts hnow).1]
     simp [leave, hp]
+
+/-! ### what a finished population / refresh leaves, downloads, direct reads -/
+
+/-- **populate_complete** ("a finished population leaves byte-identical copies"): when `cache_local_versions`
+has returned normally (no CacheException branch), every bundled file is in the cache, complete and equal to
+the bundled file — in any schedule, whoever copied it. -/
+theorem populate_complete (c : Cfg) (ps : List (Kind × Nat)) (sched : List Action) (p f : Nat)
+    (hk : ((runSt c .safe sched (init ps)).procs p).kind = .populate)
+    (hf : ((runSt c .safe sched (init ps)).procs p).status = .finished)
+    (he : ((runSt c .safe sched (init ps)).procs p).err = none) (hlt : f < c.nFiles) :
+    (runSt c .safe sched (init ps)).files (.final f) = some (full c f) := by
+  have h3 := (reach_inv3 c ps sched).done p hf he (Or.inl hk)
+  have hp := h3.2 f (by rw [hk]; exact hlt)
+  obtain ⟨ct, hct⟩ := Option.isSome_iff_exists.mp hp
+  rw [hct, (reach_inv c ps sched).torn f ct hct]
+
+/-- **refresh_complete**: a refresh of files `0 … m-1` that returned normally leaves each of them complete. -/
+theorem refresh_complete (c : Cfg) (ps : List (Kind × Nat)) (sched : List Action) (p m f : Nat)
+    (hk : ((runSt c .safe sched (init ps)).procs p).kind = .refresh m)
+    (hf : ((runSt c .safe sched (init ps)).procs p).status = .finished)
+    (he : ((runSt c .safe sched (init ps)).procs p).err = none) (hlt : f < m) :
+    (runSt c .safe sched (init ps)).files (.final f) = some (full c f) := by
+  have h3 := (reach_inv3 c ps sched).done p hf he (Or.inr ⟨m, hk⟩)
+  have hp := h3.2 f (by rw [hk]; exact hlt)
+  obtain ⟨ct, hct⟩ := Option.isSome_iff_exists.mp hp
+  rw [hct, (reach_inv c ps sched).torn f ct hct]
+
+/-- **refresh_no_torn**: the download path (sha check, copy of the downloaded file to a temp name in the cache
+folder, `os.replace`) never puts a partial file under a cache name — also for versions that are not bundled
+(`f ≥ nFiles`) — and what a refresh is about to rename into place is a complete file. -/
+theorem refresh_no_torn (c : Cfg) (ps : List (Kind × Nat)) (sched : List Action) :
+    (∀ f ct, (runSt c .safe sched (init ps)).files (.final f) = some ct → ct = full c f) ∧
+    (∀ p m i, ((runSt c .safe sched (init ps)).procs p).kind = .refresh m →
+      ((runSt c .safe sched (init ps)).procs p).status = .running →
+      ((runSt c .safe sched (init ps)).procs p).pc = .rename i →
+      (runSt c .safe sched (init ps)).files (.tmp p i) = some (full c i)) :=
+  ⟨(reach_inv c ps sched).torn, fun p _ i _ hr hpc => (reach_inv c ps sched).tmpR p i hr hpc⟩
+
+/-- **peek_no_torn**: a direct read of a cache file (`get_library_data` opening `library_data.json`) never
+obtains a partial file: whatever content it got is the bundled content. -/
+theorem peek_no_torn (c : Cfg) (ps : List (Kind × Nat)) (sched : List Action) (p v : Nat) (ct : Content)
+    (hk : ((runSt c .safe sched (init ps)).procs p).kind = .peek v)
+    (hg : ((runSt c .safe sched (init ps)).procs p).got = some (some ct)) : ct = full c v := by
+  rw [(reach_inv c ps sched).got p ct hg, hk]; rfl
 
 /-! ### the code before the repair (`Cache.current`) violates every clause -/
 
@@ -622,6 +933,24 @@ theorem current_counterexamples :
        s.files (.final 0) = some (full cfg1 0)) := by
   decide
 
+/-- the unrepaired timestamp read (`except FileNotFoundError or ValueError or IOError`): a first-use loader
+that has listed the empty directory, then a refresh that is killed between truncating and writing
+`last_update.txt`; the loader's `CacheLock.__enter__` raises `ValueError` and the load fails. -/
+theorem current_timestamp_counterexample :
+    (let s := runSt cfg1 .current
+        [.step 0, .step 1, .step 1, .step 1, .step 1, .step 1, .step 1, .step 1, .crash 1, .step 0]
+        (init [(.load 0, 5000), (.refresh 1, 5000)])
+     s.tsTorn = true ∧ (s.procs 0).status = .finished ∧ (s.procs 0).err = some .tsUnreadable ∧
+       (s.procs 0).got = none) := by
+  decide
+
+/-- the unrepaired in-place copy also serves a torn `library_data.json` to a direct reader -/
+theorem current_direct_read_counterexample :
+    (let s := runSt cfg1 .current [.step 0, .step 0, .step 0, .step 0, .crash 0, .step 1]
+        (init [(.populate, 5000), (.peek 0, 5000)])
+     (s.procs 1).status = .finished ∧ (s.procs 1).got = some (some ⟨0, [true]⟩)) := by
+  decide
+
 /-! ### non-vacuity: the hypotheses of the theorems are satisfiable, and the same schedules are harmless
 under `Cache.safe` -/
 
@@ -629,6 +958,27 @@ under `Cache.safe` -/
 example : (run cfg1 .safe 1 (List.replicate 11 (.step 0)) (init [(.populate, 5000)])).1.map (·.what) =
     ["readTs", "openLock", "tryLock", "exists", "mktemp", "create", "append", "append", "rename", "unlock",
      "idle"] := by decide
+
+/-- the primitives of an undisturbed refresh of one file (sha check, download to temp, replace, timestamp) -/
+example : (run cfg1 .safe 1 (List.replicate 11 (.step 0)) (init [(.refresh 1, 5000)])).1.map (·.what) =
+    ["readTs", "openLock", "tryLock", "read", "create", "append", "append", "rename", "truncTs", "writeTs",
+     "unlock"] := by decide
+
+/-- the torn-timestamp schedule under the repaired protocol: the truncated file reads as 0, the loader
+populates the cache itself and gets the bundled content -/
+example :
+    (let s := runSt cfg1 .safe
+        ([.step 0] ++ List.replicate 9 (.step 1) ++ [.crash 1] ++ List.replicate 7 (.step 0))
+        (init [(.load 0, 5000), (.refresh 1, 5000)])
+     s.tsTorn = true ∧ (s.procs 0).status = .finished ∧ (s.procs 0).err = none ∧
+       (s.procs 0).got = some (some (full cfg1 0))) := by decide
+
+/-- a direct reader: nothing there before the population, the complete file after it -/
+example :
+    (let s := runSt cfg1 .safe ([.step 1] ++ List.replicate 10 (.step 0) ++ [.step 2])
+        (init [(.populate, 5000), (.peek 0, 5000), (.peek 0, 5000)])
+     (s.procs 1).got = some none ∧ (s.procs 2).got = some (some (full cfg1 0)) ∧
+       (s.procs 0).status = .finished ∧ (s.procs 0).err = none) := by decide
 
 /-- schedule (b) under the repaired protocol: the killed populate leaves only a temp file, the second one
 completes the cache, the loader gets the bundled content -/
@@ -658,8 +1008,8 @@ example :
 /-- the hypotheses of `refresh_skipped_after_completed` are satisfiable: refresh 0 completes at clock 5000,
 refresh 1 starts at 5100 -/
 example :
-    (let s := runSt cfg1 .safe (List.replicate 10 (.step 0)) (init [(.refresh 1, 5000), (.refresh 1, 5100)])
-     (s.procs 0).status = .finished ∧ (s.procs 0).err = none ∧ s.ts = some 5000 ∧
+    (let s := runSt cfg1 .safe (List.replicate 11 (.step 0)) (init [(.refresh 1, 5000), (.refresh 1, 5100)])
+     (s.procs 0).status = .finished ∧ (s.procs 0).err = none ∧ s.ts = some 5000 ∧ s.tsTorn = false ∧
        (s.procs 1).status = .running ∧ (s.procs 1).pc = .readTs ∧
        ((step cfg1 .safe 1 s).procs 1).err = some .tooRecent ∧ ((step cfg1 .safe 1 s).procs 1).status = .finished) := by
   decide
